@@ -406,6 +406,10 @@ def _parse_expected_lmp(text):
 
 
 def replay(data):
+    if data.get("kind") == "trr":
+        from checks import c13_trr
+
+        return c13_trr.replay(data)
     out, _ = run_sequence(data["kind"], data["text"], data["cuts"])
     return out
 
